@@ -65,7 +65,9 @@ Step ==
      CASE e.k = "hook" ->
             IF IsPre(e)
             THEN /\ pre' = Append(pre, CallKey(e)) /\ UNCHANGED <<post, reqs>>
-                 /\ v' = [v EXCEPT !.C13 = F(F(@, e.typ \in {"order", "cancel"} /\ e.placed, "C13:before-hook-after-effect"),
+                 /\ v' = [v EXCEPT !.C13 = \* (orders only: a Cancel object may legitimately carry a placed_at of its own or be handed in again; for cancels the
+                                              \*  position of the call before the acceptance in the trace is what is judged)
+                                              F(F(@, e.typ = "order" /\ e.placed, "C13:before-hook-after-effect"),
                                               twinBad, "C13:hook-calls-differ-without-logger")]
             ELSE LET i == FirstIdx(post, LAMBDA x : x = CallKey(e)) IN
                  /\ post' = IF i = 0 THEN post ELSE RemoveAt(post, i)
@@ -89,7 +91,7 @@ Step ==
        [] e.k = "canc" ->
             /\ v' = Occ(v, Calls(Expected("cancel", TRUE, e.tm, e.m, FALSE), "cancel", TRUE, e.tm, e.m), "cancel")
             /\ pre' = <<>>
-            /\ post' = Calls(Expected("cancel", FALSE, e.t, e.m, FALSE), "cancel", FALSE, e.t, e.m)
+            /\ post' = Calls(Expected("cancel", FALSE, e.tm, e.m, FALSE), "cancel", FALSE, e.tm, e.m)
             /\ UNCHANGED reqs
        [] e.k = "round" ->
             /\ v' = Occ(v, <<>>, "round")
